@@ -270,6 +270,7 @@ def check_property(prop, tier, seed, verbose=False):
         except Undecided as e:
             undecided.append('%s: %s' % (eng['kind'], e)); continue
         cover['obligations'] += r['obligations']; cover['discharged'] += r['discharged']
+        undecided += ['%s: %s' % (eng['kind'], u) for u in r.get('undecided', [])]
         cmds.append(r['cmd'])
         cover['units'].append(r['summary'])
         cover['samples'] += r.get('samples', [])
